@@ -7,7 +7,8 @@ EXPLANATION = ("Thin claim. Decides on the MIR of the current tree only how the 
                "switched away from a thread that could continue, and new branches inherit it (E2); the scheduler's default choice is the "
                "running thread whenever it is runnable, so the default never preempts (E3); the conservative extra backtrack points exist "
                "exactly under a bound and sit at the nearest earlier context switch (E4). Soundness w.r.t. the unbounded run, monotonicity "
-               "in n and equality for large n are statements about result sets and are not decided.")
+               "in n and equality for large n are statements about result sets and are not decided."
+               " Under a bound the conservative backtrack point does not depend on the outcome of the primary one (E4 always); the scheduler's default choice is not rewritten while the running thread can continue (E3); G0/G1 cross-check the backtrack step.")
 RULE_TEXT = "rule instances = guarded explore() sites, preemption arithmetic, default seeding, extra backtrack calls"
 LEVEL_NOTE = "thin claim: enforcement only; result-set properties are not decided"
 
